@@ -72,5 +72,9 @@ namespace sim
    SIM_IO_DECL( 7, 1 )
    SIM_IO_DECL( 7, 2 )
    SIM_IO_DECL( 7, 3 )
+   SIM_IO_DECL( 8, 0 )
+   SIM_IO_DECL( 8, 1 )
+   SIM_IO_DECL( 8, 2 )
+   SIM_IO_DECL( 8, 3 )
 #undef SIM_IO_DECL
 }  // namespace sim
